@@ -1,9 +1,27 @@
-(* C07/Proofs.v — lemmas about the persistent mutations (first, small facts). *)
+(* C07/A_Proofs.v — part A (core level): property-level corollaries. *)
 From Coq Require Import List NArith ZArith Bool Lia.
-From BLB Require Import Raft.Core.
+From BLB Require Import Raft.Core Raft.Wire Raft.Legit Raft.NodeProofs C07.A_Witness C07.A_Repaired.
 Import ListNotations.
 Open Scope N_scope.
 
-Lemma term_written_only_by_save_state :
-  forall p m, p_term (apply_mut p m) <> p_term p -> exists v t, m = MSaveState v t.
-Proof. intros p m H. destruct m; simpl in H; try congruence. eauto. Qed.
+Lemma crash_keeps_term_and_vote_lemma :
+  forall s ev k st s',
+    run_event_crash s ev k = Ret (true, st, s') ->
+    p_term (n_p s) <= p_term (n_p s') /\
+    (p_term (n_p s') = p_term (n_p s) -> p_vote (n_p s) <> 0 -> p_vote (n_p s') = p_vote (n_p s)) /\
+    n_role s' = Follower /\ n_msgs s' = [].
+Proof.
+  intros s ev k st s' H. pose proof (run_event_crash_pext s ev k) as P. rewrite H in P.
+  destruct P as [[A [B _]] _]. split; [exact A|]. split.
+  - intros Ht Hv. destruct (B Ht); congruence.
+  - revert H. unfold run_event_crash.
+    destruct (run_event (with_budget s k) ev) as [[x y] | c | p]; try discriminate.
+    pose proof (new_core_pext (n_id s) (n_cfg s) p) as Q.
+    destruct (new_core (n_id s) (n_cfg s) p) as [s2 | c | q]; simpl; try discriminate.
+    intro E. inversion E. subst. destruct Q as [_ [_ [_ [R M]]]]. auto.
+Qed.
+
+Lemma f10_witness_ok :
+  legit_schedule f10_witness = true /\ observes [666%Z; Z.of_N F_GAP] f10_witness = true /\
+  existsb (fun op => match op with 10%Z :: _ => true | _ => false end) f10_witness = true.
+Proof. vm_compute. repeat split; reflexivity. Qed.
